@@ -28,6 +28,7 @@ type Obligation struct {
 	Model  map[string]string
 	Conj   []bool
 	Output string
+	Group  string // reachability probes (Kind pre-sat): the group is vacuous only if every member is unsatisfiable
 }
 
 type unsupported struct{ msg string }
@@ -140,6 +141,18 @@ func (x *Exec) oblige(st *State, kind string, goal *Term, pos token.Pos, note st
 			Pos: posStr, Note: note, Status: "proved", Solver: "trivial"})
 	}
 	x.assumeFact(st, orig)
+}
+
+// reachProbe records a satisfiability probe: the facts assumed so far together with the path condition must not be
+// contradictory. If every probe of a group (all exits of the function, all back edges of a loop) is unsatisfiable,
+// the obligations there were discharged vacuously - by inconsistent assumptions or a contradictory contract.
+func (x *Exec) reachProbe(st *State, group, note string) {
+	if x.pure > 0 {
+		return
+	}
+	x.counters["reach:"+group]++
+	x.obls = append(x.obls, &Obligation{Name: fmt.Sprintf("%s#reach(%s):%d", x.job.Name, group, x.counters["reach:"+group]), Kind: "pre-sat", Group: group,
+		Job: x.job.Name, NFact: len(x.ctx.facts), PC: st.pc, Goal: False, Note: note})
 }
 
 // assumeFact assumes a contract-level fact and registers its quantified parts for instantiation.
@@ -1055,6 +1068,9 @@ func (x *Exec) atFun(st *State, arr, off, idx *Term) *Term {
 }
 
 func (x *Exec) checkInvariants(fr *Frame, lp *loop, st *State, over map[ssa.Value]*Val, kind string) {
+	if kind == "inv-step" && st.pc != False && len(x.siteStack) == 0 {
+		x.reachProbe(st, fmt.Sprintf("loop%d", lp.ordinal), "a back edge of the loop is reachable under the assumptions (expected: sat)")
+	}
 	for i, t := range x.autoInvariants(fr, lp, over) {
 		x.oblige(st, fmt.Sprintf("%s(loop%d.auto%d)", kind, lp.ordinal, i+1), t, lp.header.Instrs[0].Pos(), "counter never drops below its start value")
 	}
